@@ -34,6 +34,8 @@ static void second_link_job(void *a) {
     if (rc1 < 0 || rc2 != 1 || k2.got != pl) c.fail("intruder.roundtrip", "a frame of %zu octets encoded and decoded by a second link (%s) while another link's sink call was pending came back wrong (encode %d, decode %d, %zu octets)", pl.size(), sof ? "start-of-frame" : "classic", rc1, rc2, k2.got.size());
 }
 
+static const Json *g_enc_intrude = nullptr;   // the plan's "intrude" pair while a plan runs: encoders' sinks are interrupted as well as decoders'
+
 struct SlipHarness : Harness {
     const char *name() const override { return "slipsim"; }
     std::vector<std::string> props() const override { return {"C12"}; }
@@ -155,6 +157,11 @@ struct SlipHarness : Harness {
         if (partial) snk.script.load(*partial);
         if (where == 0) { src.err_pos = pos; src.err_code = code; }
         if (where == 1) { snk.err_pos = pos; snk.err_code = code; }
+        SlipIntruder intr{&c, 0};
+        if (g_enc_intrude) {   // a second link works while this encoder waits in its sink (e.g. the sink tunnels what it is handed through another SLIP link)
+            intr.arg = g_enc_intrude->ati(1, 0) & 0xffffff; snk.intrude_at = (g_enc_intrude->ati(0, 0) + (int64_t)payload.size()) % (2 * (int64_t)payload.size() + 3);
+            snk.intruder = second_link_job; snk.intruder_arg = &intr;
+        }
         Source source; Sink sink; src.bind(&source); snk.bind(&sink);
         RFC1055Context ctx; init_context(&ctx, sof);
         if (use) ctx = *use;   // a link's context as its decoder left it (the encoder takes it as const: only the mode may matter)
@@ -207,7 +214,9 @@ struct SlipHarness : Harness {
         g_have_ctx = false; last_F.clear(); last_encs.clear();
         g_bind_with_macros = plan.geti("static_init") != 0;
         g_static_init = plan.geti("static_init") != 0; if (g_static_init) COUNT("probe.context_from_static_initialiser");
+        g_enc_intrude = plan.has("intrude") ? &plan.get("intrude") : nullptr;
         exec_inner(plan, c);
+        g_enc_intrude = nullptr;
         if (g_have_ctx) encode_on_used_context(c, plan.geti("sof") != 0, plan.geti("src_octet") != 0, plan.geti("snk_octet") != 0, last_F, last_encs, g_last_ctx);
     }
     std::vector<Bytes> last_F, last_encs;
